@@ -371,12 +371,15 @@ fn check_h2f(c: &H2fCase, info: &mut Info) -> Result<(), String> {
     Ok(())
 }
 
+crate::long_sub!(run_long_history, [14]);
+
 pub fn def() -> PropDef {
     PropDef {
         id: "C13",
         rule: "(expander in {XMD-SHA-256, XMD-SHA-512, XOF-SHAKE128, XOF-SHAKE256 and - the XMD construction being generic in the Merkle-Damgard hash - XMD-SHA-224, XMD-SHA-384, XMD-SHA-512/224, XMD-SHA-512/256, whose digest size is not half the block size}, msg, dst, len) with message lengths 0, 1 and around every SHA-2 / SHAKE block boundary, occasional long messages (<= 20 kB), tags of length 0, 1, 16, 43, 254, 255 and others, lengths k*b+-1 for k up to 255, exact lengths up to 65535, and the must-abort class 255*b+1.. for XMD; 64-/48-/128-byte blocks (zero, all-ones, m*p+-d just around multiples of the modulus, two-part blocks whose low part - for every plausible split position - is j*p +- (2^k + e), uniform) through from_okm / from_ro; hash_to_field for Fq, Fr, Fq2 with count 0..=8 (occasionally up to 60). Oracle: model expand_message_xmd / _xof and OS2IP mod p written from RFC 9380 section 5. Non-trivial = partial block, block-boundary message, long tag or many blocks (expand); non-zero block; count >= 1; distinct = distinct cases",
         needs_pairing: false,
         subs: vec![
+            Box::new(crate::engine::EnumSub { name: "long-history", rule: super::longhist::RULE, run: run_long_history, replay: super::longhist::replay, exhaustive: false }),
             Box::new(Sub { name: "expand-message", rule: "bytes equal the RFC; requests beyond 255 blocks abort", quick: 60_000, thorough: 250_000, strategy: || boxed(expand_case_strategy()), check: check_expand }),
             Box::new(Sub { name: "related-requests", rule: "a request followed back to back by 1..4 related requests (other tag, other message, other length, other expander, same again), each compared with the model; out-of-domain requests (tags beyond 255 bytes) interleaved, outcome ignored", quick: 30_000, thorough: 300_000, strategy: || boxed(expand_seq_strategy()), check: check_expand_seq }),
             Box::new(Sub { name: "block-reduction", rule: "from_okm / from_ro == OS2IP(block) mod p for Fq (64), Fr (48), Fq2 (2 x 64, real first)", quick: 200_000, thorough: 1_000_000, strategy: || boxed(okm_strategy()), check: check_okm }),
